@@ -189,11 +189,77 @@ fn arb_mig_part(reader: bool) -> impl Strategy<Value = MigPart> {
         .prop_map(move |(scan_all, migs, probe, settle)| MigPart { scan_all, migs, probe: reader.then_some(probe), settle })
 }
 
+/// 1-3 blocks of Orchard receipts for the wallet's accounts. Generated histories hold few Orchard notes (most accounts
+/// none), while an Orchard -> Ironwood migration is committed by an account that has Orchard funds: these blocks are
+/// put in front of the generated history (three times out of four) so that the migrations' nullifier caches, their
+/// note reservations and the satisfiability oracle have real notes to refer to.
+fn arb_orchard_funding() -> impl Strategy<Value = Vec<BlockSpec>> {
+    let item = (0u8..3, arb_scope(), arb_value()).prop_map(|(a, scope, value)| ItemSpec::Recv { pool: Pool::Orchard, who: Who::Wallet(a), scope, value });
+    let tx = proptest::collection::vec(item, 1..=3).prop_map(|items| TxSpec { items });
+    let block = proptest::collection::vec(tx, 1..=2).prop_map(|txs| BlockSpec { txs });
+    prop_oneof![1 => Just(vec![]), 3 => proptest::collection::vec(block, 1..=3)]
+}
+
+fn with_orchard_funding(mut c: C02Case, blocks: Vec<BlockSpec>) -> C02Case {
+    if !blocks.is_empty() {
+        let na = c.hist.world.n_accounts.max(1);
+        let blocks = blocks
+            .into_iter()
+            .map(|b| BlockSpec {
+                txs: b
+                    .txs
+                    .into_iter()
+                    .map(|t| TxSpec {
+                        items: t
+                            .items
+                            .into_iter()
+                            .map(|i| match i {
+                                ItemSpec::Recv { pool, who: Who::Wallet(a), scope, value } => ItemSpec::Recv { pool, who: Who::Wallet(a % na), scope, value },
+                                other => other,
+                            })
+                            .collect(),
+                    })
+                    .collect(),
+            })
+            .collect();
+        c.hist.ops.insert(0, Op::AddBlocks(blocks));
+    }
+    c
+}
+
 /// (state with 0-2 persisted migrations for 1-2 accounts, operation from `arb_mig_wop`)
 fn arb_c02_mig_case() -> impl Strategy<Value = C02Case> {
-    (arb_c02_case(), arb_mig_wop(), arb_mig_part(false)).prop_map(|(mut c, op, mig)| {
+    (arb_c02_case(), arb_mig_wop(), arb_mig_part(false), arb_orchard_funding()).prop_map(|(mut c, op, mig, funding)| {
         c.op = op;
         c.mig = mig;
+        with_orchard_funding(c, funding)
+    })
+}
+
+/// Cases aimed at the release of note reservations: every transaction of the persisted migrations is at least proved
+/// and holds a lock-owner token (under which `build_state` reserves an Orchard note of the account), and the operation
+/// ends the migration (`cancel_migration`, or persisting it as superseded / cancelled), so that the store must clear
+/// the wallet's lock columns and flip the migration's status in ONE transaction.
+fn arb_c02_release_case() -> impl Strategy<Value = C02Case> {
+    (arb_c02_mig_case(), 0u8..4, any::<u8>()).prop_map(|(mut c, which, acct)| {
+        for m in &mut c.mig.migs {
+            m.consistent = false;
+            if !m.stage.is_terminal() {
+                m.stage = migration::Stage::PartlyBroadcast;
+            }
+            for g in m.layers.iter_mut().flatten().chain(m.transfers.iter_mut()) {
+                g.lock = true;
+                if matches!(g.st, migration::StSel::Awaiting | migration::StSel::Signed) {
+                    g.st = migration::StSel::Proved;
+                }
+            }
+        }
+        let acct = acct % 208; // an account that holds a migration, when there is one
+        c.op = WOp::Mig(match which {
+            0 | 1 => MigOp::Cancel { acct },
+            2 => MigOp::Mutate { acct, how: migration::MutSel::Supersede, sel: 0, off: 0 },
+            _ => MigOp::Mutate { acct, how: migration::MutSel::MarkCancelled, sel: 0, off: 0 },
+        });
         c
     })
 }
@@ -211,10 +277,10 @@ fn arb_c02_mig_reader_case() -> impl Strategy<Value = C02Case> {
         // before the deletion, read after it" is not a snapshot by construction and nothing documents it as one)
         6 => migration::arb_mig_op().prop_map(WOp::Mig),
     ];
-    (arb_c02_case(), op, arb_mig_part(true)).prop_map(|(mut c, op, mig)| {
+    (arb_c02_case(), op, arb_mig_part(true), arb_orchard_funding()).prop_map(|(mut c, op, mig, funding)| {
         c.op = op;
         c.mig = mig;
-        c
+        with_orchard_funding(c, funding)
     })
 }
 
@@ -733,10 +799,15 @@ fn build_state(case: &C02Case) -> Result<Option<(Hist, OpCtx)>, Fail> {
         },
         orchard_roots: (h.base()..=h.chain.tip_height()).map(|x| (x, h.chain.state_at(x).final_orchard_tree().root().to_bytes())).collect(),
     };
+    // a spec's account selector indexes the accounts ordered by how many scanned Orchard notes they hold (a migration
+    // is committed by an account that has Orchard funds; most generated accounts have none)
+    let mut ranked: Vec<usize> = (0..n_acc).collect();
+    ranked.sort_by_key(|a| std::cmp::Reverse(notes.iter().filter(|n| n.0 as usize == *a && n.1 == Pool::Orchard).count()));
+    let account_of = |spec: &MigSpec| ranked[spec.acct as usize % n_acc];
     for (i, spec) in case.mig.migs.iter().enumerate() {
-        let ai = spec.acct as usize % n_acc;
+        let ai = account_of(spec);
         let mut spec = spec.clone();
-        if case.mig.migs[i + 1..].iter().any(|later| later.acct as usize % n_acc == ai) && !spec.stage.is_terminal() {
+        if case.mig.migs[i + 1..].iter().any(|later| account_of(later) == ai) && !spec.stage.is_terminal() {
             // `Complete` history is revisited by the wallet's truncation walk, the policy statuses are not
             spec.stage = if spec.salt % 2 == 0 { migration::Stage::Complete } else { migration::Stage::Superseded };
         }
@@ -751,11 +822,21 @@ fn build_state(case: &C02Case) -> Result<Option<(Hist, OpCtx)>, Fail> {
         // reserve one scanned Orchard note of the account under each lock-owner token the migration names, as the
         // prover's `lock_spent_notes` does (a terminal persist / cancel must release exactly these)
         let mine: Vec<(u8, Pool, [u8; 32], u32)> = notes.iter().filter(|n| n.0 as usize == ai && n.1 == Pool::Orchard).cloned().collect();
+        if std::env::var("VERIF_DEBUG").is_ok() {
+            eprintln!("[debug] migration for account {ai}: {} lock tokens, {} scanned orchard notes, status {:?}", locks.len(), mine.len(), state.status());
+        }
         for (k, token) in locks.iter().enumerate() {
-            if !mine.is_empty() {
-                let n = &mine[(k + spec.salt as usize) % mine.len()];
+            // the first note (from a generated offset) that is not reserved yet
+            for j in 0..mine.len() {
+                let n = &mine[(j + k + spec.salt as usize) % mine.len()];
                 let tip = h.chain.tip_height();
-                let _ = h.w.db().lock_outputs(&[out_ref(n)], LockOwner::new(*token), BlockHeight::from_u32(tip + 20 + k as u32));
+                let r = h.w.db().lock_outputs(&[out_ref(n)], LockOwner::new(*token), BlockHeight::from_u32(tip + 20 + k as u32));
+                if std::env::var("VERIF_DEBUG").is_ok() {
+                    eprintln!("[debug] reserve under migration token: {r:?}");
+                }
+                if r.is_ok() {
+                    break;
+                }
             }
         }
         if !menv.mig_accounts.contains(&ai) {
@@ -798,29 +879,49 @@ fn positions(s: u64, sel: &[u32], dense: bool) -> Vec<u64> {
     out.into_iter().collect()
 }
 
-fn run_case(ctx: &Ctx, case: &C02Case) -> CaseResult {
-    let Some((h, mut oc)) = build_state(case)? else {
-        return Ok(Obs::trivial().label("excluded-known:stale-annotation-after-reorg"));
-    };
-    let Hist { world, chain, w, .. } = h;
-    oc.world = world;
-    oc.chain = chain;
-    let state_path = PathBuf::from(w.conn().path().expect("file-backed wallet").to_string());
-    let dir = state_path.parent().unwrap().to_path_buf();
-    let stem = state_path.file_name().unwrap().to_string_lossy().to_string();
-    let p = |tag: &str| dir.join(format!("{stem}.{tag}"));
-    let _cleanup = TempFiles(vec![p("ref"), p("flt"), p("crash"), p("veto"), p("snap")]);
-    let kind = op_kind(&case.op);
-    let dense = ctx.tier == vcore::Tier::Thorough;
+/// The operation under test, as the fault procedure sees it.
+struct OpUnderTest<'a> {
+    kind: &'static str,
+    /// rendering for messages
+    desc: String,
+    run: &'a (dyn Fn(&mut Connection) -> Result<String, String> + Sync),
+}
 
+/// What the reference run established.
+struct RefInfo {
+    d0: Dump,
+    dr: Dump,
+    ref_res: Result<String, String>,
+    /// VM steps of the uninterrupted operation
+    s: u64,
+    commits: u64,
+    changed: usize,
+    crash_checked: u64,
+    veto_checked: u64,
+}
+
+#[derive(Default)]
+struct PosStats {
+    injected: u64,
+    errs: u64,
+    swallowed: u64,
+    mid_write: u64,
+    snapshots: u64,
+    snapshots_after_commit: u64,
+    snapshot_busy: u64,
+}
+
+/// Reference run (VM steps, commits, crash copy at the commit boundary) and the vetoed commit.
+fn reference_checks(state_path: &Path, p: &dyn Fn(&str) -> PathBuf, op: &OpUnderTest) -> Result<RefInfo, Fail> {
+    let kind = op.kind;
     // pre-state
-    let d0 = canon_dump(&state_path).map_err(|e| Fail::new("harness-dump", e))?;
+    let d0 = canon_dump(state_path).map_err(|e| Fail::new("harness-dump", e))?;
     for t in migration::MIGRATION_TABLES {
         vensure!(d0.contains_key(t), "harness-migration-table-missing", "the canonical dump has no table {t}");
     }
 
     // ---- reference run -------------------------------------------------------------------------
-    copy_db(&state_path, &p("ref"));
+    copy_db(state_path, &p("ref"));
     let (mut rdb, rh) = open_hooked(&p("ref"), false);
     // crash copy at the commit boundary
     {
@@ -828,7 +929,7 @@ fn run_case(ctx: &Ctx, case: &C02Case) -> CaseResult {
         let dst = p("crash");
         *rh.at_commit.lock().unwrap() = Some(Box::new(move || copy_db(&src, &dst)));
     }
-    let ref_res = catch(|| run_op(&mut rdb, &case.op, &oc)).map_err(|pn| Fail::new(format!("panic-in-operation:{kind}"), format!("{:?} panicked: {pn}", case.op)))?;
+    let ref_res = catch(|| (op.run)(&mut rdb)).map_err(|pn| Fail::new(format!("panic-in-operation:{kind}"), format!("{} panicked: {pn}", op.desc)))?;
     let s = rh.steps.load(Ordering::Relaxed);
     let commits = rh.commits.load(Ordering::Relaxed);
     let empty_commits = rh.empty_commits.load(Ordering::Relaxed);
@@ -837,56 +938,55 @@ fn run_case(ctx: &Ctx, case: &C02Case) -> CaseResult {
     let changed = changed_rows(&d0, &dr);
     match &ref_res {
         Ok(_) => {
-            vensure!(commits <= 1, format!("more-than-one-commit:{kind}"), "{:?} succeeded with {commits} commits (a write outside the operation's transaction)", case.op);
-            vensure!(changed == 0 || commits == 1, format!("changed-without-commit:{kind}"), "{:?} changed {changed} rows with {commits} commits", case.op);
+            vensure!(commits <= 1, format!("more-than-one-commit:{kind}"), "{} succeeded with {commits} commits (a write outside the operation's transaction)", op.desc);
+            vensure!(changed == 0 || commits == 1, format!("changed-without-commit:{kind}"), "{} changed {changed} rows with {commits} commits", op.desc);
         }
         Err(e) => {
             // (a commit that changed no row — an autocommit statement that matched nothing — leaves the database as it was)
-            vensure!(commits == empty_commits, format!("commit-on-error:{kind}"), "{:?} failed ({e}) but committed {commits} time(s), {} of them with row changes", case.op, commits - empty_commits);
-            vensure!(changed == 0, format!("error-changed-db:{kind}"), "{:?} failed ({e}) but changed the database: {}", case.op, diff_dump(&d0, &dr));
+            vensure!(commits == empty_commits, format!("commit-on-error:{kind}"), "{} failed ({e}) but committed {commits} time(s), {} of them with row changes", op.desc, commits - empty_commits);
+            vensure!(changed == 0, format!("error-changed-db:{kind}"), "{} failed ({e}) but changed the database: {}", op.desc, diff_dump(&d0, &dr));
         }
     }
     // crash copy taken inside the commit hook must recover to the pre-state
     let mut crash_checked = 0u64;
     if commits >= 1 && p("crash").exists() {
         let dc = canon_dump(&p("crash")).map_err(|e| Fail::new("harness-dump", e))?;
-        vensure!(dc == d0, format!("crash-at-commit-not-prestate:{kind}"), "a copy of the database taken at the commit boundary of {:?} recovers to a state that is not the pre-state: {}", case.op, diff_dump(&d0, &dc));
+        vensure!(dc == d0, format!("crash-at-commit-not-prestate:{kind}"), "a copy of the database taken at the commit boundary of {} recovers to a state that is not the pre-state: {}", op.desc, diff_dump(&d0, &dc));
         crash_checked = 1;
     }
 
     // ---- vetoed commit ---------------------------------------------------------------------------
     let mut veto_checked = 0u64;
     if ref_res.is_ok() && commits == 1 {
-        copy_db(&state_path, &p("veto"));
+        copy_db(state_path, &p("veto"));
         let (mut vdb, vh) = open_hooked(&p("veto"), false);
         vh.veto_commit.store(true, Ordering::Relaxed);
-        let r = catch(|| run_op(&mut vdb, &case.op, &oc)).map_err(|pn| Fail::new(format!("panic-on-commit-failure:{kind}"), format!("{:?} panicked when its commit failed: {pn}", case.op)))?;
+        let r = catch(|| (op.run)(&mut vdb)).map_err(|pn| Fail::new(format!("panic-on-commit-failure:{kind}"), format!("{} panicked when its commit failed: {pn}", op.desc)))?;
         drop(vdb);
         let dv = canon_dump(&p("veto")).map_err(|e| Fail::new("harness-dump", e))?;
-        vensure!(r.is_err(), format!("ok-despite-failed-commit:{kind}"), "{:?} returned Ok although its COMMIT was turned into a ROLLBACK", case.op);
-        vensure!(dv == d0, format!("failed-commit-changed-db:{kind}"), "{:?}: failed commit left changes: {}", case.op, diff_dump(&d0, &dv));
+        vensure!(r.is_err(), format!("ok-despite-failed-commit:{kind}"), "{} returned Ok although its COMMIT was turned into a ROLLBACK", op.desc);
+        vensure!(dv == d0, format!("failed-commit-changed-db:{kind}"), "{}: failed commit left changes: {}", op.desc, diff_dump(&d0, &dv));
         veto_checked = 1;
     }
+    Ok(RefInfo { d0, dr, ref_res, s, commits, changed, crash_checked, veto_checked })
+}
 
-    // ---- fault enumeration -----------------------------------------------------------------------
-    let mut injected = 0u64;
-    let mut errs = 0u64;
-    let mut swallowed = 0u64;
-    let mut mid_write = 0u64;
-    let mut snapshots = 0u64;
-    let mut snapshots_after_commit = 0u64;
-    let mut snapshot_busy = 0u64;
-    let pos = positions(s, &case.pos_sel, dense);
-    for (pi, k) in pos.iter().enumerate() {
-        copy_db(&state_path, &p("flt"));
+/// One enumerated fault position: interrupt VM step `k` (optionally with a second-connection snapshot one step
+/// earlier), check the outcome against pre-state / reference result, and retry after a failure.
+fn fault_position(state_path: &Path, p: &dyn Fn(&str) -> PathBuf, op: &OpUnderTest, info: &RefInfo, k: u64, with_snapshot: bool, st: &mut PosStats) -> Result<(), Fail> {
+    let kind = op.kind;
+    let RefInfo { d0, dr, ref_res, s, commits, .. } = info;
+    let (s, commits) = (*s, *commits);
+    {
+        copy_db(state_path, &p("flt"));
         let (mut fdb, fh) = open_hooked(&p("flt"), false);
-        fh.fire_at.store(*k, Ordering::Relaxed);
-        // writer-side snapshot a little before the fault, on every 4th position
+        fh.fire_at.store(k, Ordering::Relaxed);
+        // writer-side snapshot a little before the fault
         let snap_result: Arc<Mutex<Option<Result<Dump, String>>>> = Arc::new(Mutex::new(None));
-        if pi % 4 == 0 && *k > 1 {
+        if with_snapshot && k > 1 {
             let path = p("flt");
             let slot = snap_result.clone();
-            fh.snapshot_at.store(*k - 1, Ordering::Relaxed);
+            fh.snapshot_at.store(k - 1, Ordering::Relaxed);
             *fh.snapshot.lock().unwrap() = Some(Box::new(move || {
                 let r = (|| -> Result<Dump, String> {
                     let c = Connection::open_with_flags(&path, rusqlite::OpenFlags::SQLITE_OPEN_READ_ONLY).map_err(|e| e.to_string())?;
@@ -903,29 +1003,29 @@ fn run_case(ctx: &Ctx, case: &C02Case) -> CaseResult {
                 *slot.lock().unwrap() = Some(r);
             }));
         }
-        let r = catch(|| run_op(&mut fdb, &case.op, &oc)).map_err(|pn| Fail::new(format!("panic-on-fault:{kind}"), format!("{:?} panicked when VM step {k}/{s} was interrupted: {pn}", case.op)))?;
+        let r = catch(|| (op.run)(&mut fdb)).map_err(|pn| Fail::new(format!("panic-on-fault:{kind}"), format!("{} panicked when VM step {k}/{s} was interrupted: {pn}", op.desc)))?;
         let fired = fh.fired.load(Ordering::Relaxed);
         let fcommits = fh.commits.load(Ordering::Relaxed);
         if fired {
-            injected += 1;
+            st.injected += 1;
             if fh.changes_at_fault.load(Ordering::Relaxed) > 0 {
-                mid_write += 1;
+                st.mid_write += 1;
             }
         }
         if let Some(sr) = snap_result.lock().unwrap().take() {
             match sr {
                 Ok(d) => {
-                    snapshots += 1;
+                    st.snapshots += 1;
                     let d = normalise(d);
                     if fh.commits_at_snapshot.load(Ordering::Relaxed) == 0 {
-                        vensure!(d == d0, format!("snapshot-sees-partial-state:{kind}"), "a second connection reading inside one transaction at writer step {}/{s} of {:?} (before any commit) saw a state that is not the pre-state: {}", k - 1, case.op, diff_dump(&d0, &d));
+                        vensure!(d == *d0, format!("snapshot-sees-partial-state:{kind}"), "a second connection reading inside one transaction at writer step {}/{s} of {} (before any commit) saw a state that is not the pre-state: {}", k - 1, op.desc, diff_dump(d0, &d));
                     } else if ref_res.is_ok() && commits == 1 {
                         // the callback ran after the operation's one commit had completed (see `Hooks::commits_at_snapshot`)
-                        snapshots_after_commit += 1;
-                        vensure!(d == dr, format!("snapshot-after-commit-sees-partial-state:{kind}"), "a second connection reading inside one transaction after the commit of {:?} (writer step {}/{s}) saw a state that is not the complete result: {}", case.op, k - 1, diff_dump(&dr, &d));
+                        st.snapshots_after_commit += 1;
+                        vensure!(d == *dr, format!("snapshot-after-commit-sees-partial-state:{kind}"), "a second connection reading inside one transaction after the commit of {} (writer step {}/{s}) saw a state that is not the complete result: {}", op.desc, k - 1, diff_dump(dr, &d));
                     }
                 }
-                Err(_) => snapshot_busy += 1,
+                Err(_) => st.snapshot_busy += 1,
             }
         }
         // drop handlers' influence for the retry
@@ -937,33 +1037,61 @@ fn run_case(ctx: &Ctx, case: &C02Case) -> CaseResult {
         };
         match (&r, fired) {
             (Err(e), _) => {
-                errs += 1;
+                st.errs += 1;
                 // (the commit hook counts commit ATTEMPTS: an interrupt delivered during the COMMIT statement
                 // itself runs the hook and then rolls back, so the count is not asserted here; the dump is)
                 let _ = fcommits;
-                vensure!(df == d0, format!("partial-state-after-error:{kind}"), "{:?}: fault at VM step {k}/{s} made it fail ({e}) but the database changed: {}", case.op, diff_dump(&d0, &df));
+                vensure!(df == *d0, format!("partial-state-after-error:{kind}"), "{}: fault at VM step {k}/{s} made it fail ({e}) but the database changed: {}", op.desc, diff_dump(d0, &df));
             }
             (Ok(_), true) => {
-                swallowed += 1;
-                vensure!(df == dr, format!("ok-with-third-state:{kind}"), "{:?}: VM step {k}/{s} was interrupted, the operation still returned Ok, and the state is neither the pre-state nor the reference result: {}", case.op, diff_dump(&dr, &df));
+                st.swallowed += 1;
+                vensure!(df == *dr, format!("ok-with-third-state:{kind}"), "{}: VM step {k}/{s} was interrupted, the operation still returned Ok, and the state is neither the pre-state nor the reference result: {}", op.desc, diff_dump(dr, &df));
             }
             (Ok(_), false) => {
-                vensure!(df == dr, format!("nondeterministic-operation:{kind}"), "{:?}: un-faulted run differs from the reference run: {}", case.op, diff_dump(&dr, &df));
+                vensure!(df == *dr, format!("nondeterministic-operation:{kind}"), "{}: un-faulted run differs from the reference run: {}", op.desc, diff_dump(dr, &df));
             }
         }
         // retry on the same handle: must reach the reference outcome
         if r.is_err() {
-            let rr = catch(|| run_op(&mut fdb, &case.op, &oc)).map_err(|pn| Fail::new(format!("panic-on-retry:{kind}"), format!("retry of {:?} panicked: {pn}", case.op)))?;
+            let rr = catch(|| (op.run)(&mut fdb)).map_err(|pn| Fail::new(format!("panic-on-retry:{kind}"), format!("retry of {} panicked: {pn}", op.desc)))?;
             drop(fdb);
             let dretry = canon_dump(&p("flt")).map_err(|e| Fail::new("harness-dump", e))?;
-            match (&ref_res, &rr) {
-                (Ok(_), Ok(_)) => vensure!(dretry == dr, format!("retry-differs:{kind}"), "{:?}: retry after a fault at step {k}/{s} does not reproduce the uninterrupted result: {}", case.op, diff_dump(&dr, &dretry)),
-                (Ok(_), Err(e)) => vfail!(format!("retry-fails:{kind}"), "{:?}: retry after a fault at step {k}/{s} failed: {e}", case.op),
-                (Err(_), Err(_)) => vensure!(dretry == d0, format!("retry-error-changed-db:{kind}"), "retry error changed db"),
-                (Err(e), Ok(_)) => vfail!(format!("retry-succeeds-where-reference-failed:{kind}"), "{:?}: reference failed ({e}) but the retry succeeded", case.op),
+            match (ref_res, &rr) {
+                (Ok(_), Ok(_)) => vensure!(dretry == *dr, format!("retry-differs:{kind}"), "{}: retry after a fault at step {k}/{s} does not reproduce the uninterrupted result: {}", op.desc, diff_dump(dr, &dretry)),
+                (Ok(_), Err(e)) => vfail!(format!("retry-fails:{kind}"), "{}: retry after a fault at step {k}/{s} failed: {e}", op.desc),
+                (Err(_), Err(_)) => vensure!(dretry == *d0, format!("retry-error-changed-db:{kind}"), "retry error changed db"),
+                (Err(e), Ok(_)) => vfail!(format!("retry-succeeds-where-reference-failed:{kind}"), "{}: reference failed ({e}) but the retry succeeded", op.desc),
             }
         }
     }
+    Ok(())
+}
+
+fn run_case(ctx: &Ctx, case: &C02Case) -> CaseResult {
+    let Some((h, mut oc)) = build_state(case)? else {
+        return Ok(Obs::trivial().label("excluded-known:stale-annotation-after-reorg"));
+    };
+    let Hist { world, chain, w, .. } = h;
+    oc.world = world;
+    oc.chain = chain;
+    let state_path = PathBuf::from(w.conn().path().expect("file-backed wallet").to_string());
+    let dir = state_path.parent().unwrap().to_path_buf();
+    let stem = state_path.file_name().unwrap().to_string_lossy().to_string();
+    let p = |tag: &str| dir.join(format!("{stem}.{tag}"));
+    let _cleanup = TempFiles(vec![p("ref"), p("flt"), p("crash"), p("veto"), p("snap")]);
+    let kind = op_kind(&case.op);
+    let dense = ctx.tier == vcore::Tier::Thorough;
+    let run = |conn: &mut Connection| run_op(conn, &case.op, &oc);
+    let op = OpUnderTest { kind, desc: format!("{:?}", case.op), run: &run };
+
+    let info = reference_checks(&state_path, &p, &op)?;
+    // ---- fault enumeration (writer-side snapshot before every 4th position) ----------------------------
+    let mut st = PosStats::default();
+    for (pi, k) in positions(info.s, &case.pos_sel, dense).iter().enumerate() {
+        fault_position(&state_path, &p, &op, &info, *k, pi % 4 == 0, &mut st)?;
+    }
+    let RefInfo { d0, dr, ref_res, s, changed, crash_checked, veto_checked, .. } = info;
+    let PosStats { injected, errs, swallowed, mid_write, snapshots, snapshots_after_commit, snapshot_busy } = st;
 
     let nontrivial = changed >= 2 && mid_write > 0;
     // generator health of the pool-migration part
@@ -1307,10 +1435,24 @@ fn main() {
          clear_locked_outputs, queue_rescans, set_transaction_status, prune_scan_queue_below. Per pair: reference run (VM steps S, commits C), enumerated interrupt positions \
          (all if S <= 48, else first/last 6 + 26 evenly spaced + 12 generated; thorough: 400 / 300), vetoed commit, crash copy at the commit hook, second-connection snapshot \
          before every 4th position, retry after every failure. reader-snapshot: get_wallet_summary on one WAL connection while the write commits on another at sampled reader \
-         steps. Non-trivial = reference changes >= 2 rows and at least one fault landed after the operation's first row change; distinct = hash of the case.",
+         steps. Non-trivial = reference changes >= 2 rows and at least one fault landed after the operation's first row change; distinct = hash of the case. \
+         migration-fault-enumeration: the same per-pair procedure; state = such a wallet (three times out of four with 1-3 blocks of Orchard receipts in front of the history, \
+         three times out of four fully scanned below the unscanned blocks) holding 0-2 persisted pool migrations (generated MigrationState values: 0-2 preparation layers, 1-4 \
+         transfers, stages planned / partly broadcast / partly mined / complete / failed / superseded / cancelled, heights relative to the wallet's tip and fully-scanned height, \
+         nullifier caches and txids mostly those of the account's real Orchard notes and transactions, notes reserved under the lock-owner tokens) for 1-2 accounts; operation = \
+         one of the SQLite pool-migration store's replace_migration, get_migration + one MigrationState mutator (mark_broadcast, report_broadcast_failure, mark_mined, \
+         mark_superseded, mark_cancelled, apply_signature, truncate_to_height) + replace_migration, update_transaction, cancel_migration, store_proved_transaction, \
+         take_transaction_for_broadcast (on a PCZT without proofs), one advance_migration call over the store and its oracle, or the wallet's truncate_to_height / \
+         truncate_to_chain_state / rewind_to_chain_state / delete_account / put_blocks; one case in seven is aimed at the release of note reservations (cancel / supersede with \
+         every transaction proved and holding a token). reader-snapshot-migration: check_step_satisfiability for up to 4 generated transactions, mined_height for up to 3 txids and \
+         (inside one caller-opened transaction) get_migration + latest_migration + list_migrations on one WAL connection while a put_blocks / truncation / rewind / \
+         set_transaction_status / store write commits on another at sampled reader steps inside the calls whose answer the write changes; non-trivial = at least one such call \
+         was compared.",
     );
     ctx.assume("SQLITE_INTERRUPT injected through the progress handler stands for any statement-level failure; torn pages / fsync ordering inside SQLite's commit are SQLite's contract and are not simulated");
-    ctx.assume("account UUIDs (OS randomness) are normalised in dumps; everything else is deterministic (FixedClock, seeded ChaCha)");
+    ctx.assume("account UUIDs and pool-migration record UUIDs (OS randomness) are normalised in dumps; everything else is deterministic (FixedClock, seeded ChaCha)");
+    ctx.assume("advance_migration performs at most one store write per call (rustdoc: the state is written back with replace_migration before the step is returned, nothing is written when nothing was discovered), so the one-commit rule applies to it unchanged; a commit that changed no row (an autocommit statement that matched nothing) counts as leaving the database as it was");
+    ctx.assume("get_migration / latest_migration / list_migrations are not documented as snapshots; they are read inside a caller-opened transaction (AGENTS.md, Database Write Atomicity), and a store handle's account row is resolved when the handle is created");
     let tier = ctx.tier;
     // debugging aid (mutant calibration): VERIF_C02_ONLY=sub1,sub2 runs only those sub-checks
     let only: Option<Vec<String>> = std::env::var("VERIF_C02_ONLY").ok().map(|v| v.split(',').map(|x| x.trim().to_string()).collect());
@@ -1336,10 +1478,30 @@ fn main() {
     // ---- pool-migration store ----------------------------------------------------------------------------------
     if want("migration-fault-enumeration") {
         let c4 = ctx.clone();
-        ctx.run_prop_with("migration-fault-enumeration", arb_c02_mig_case, tier.pick(192, 3_000), 20, move |c| run_case(&c4, c));
+        ctx.run_prop_with("migration-fault-enumeration", || prop_oneof![6 => arb_c02_mig_case().boxed(), 1 => arb_c02_release_case().boxed()], tier.pick(160, 3_000), 20, move |c| run_case(&c4, c));
+        // generator health (quick-tier minima at no more than half of the smallest count measured over seeds 1..5)
+        for (label, min) in [
+            ("op:mig.replace_migration", 8),
+            ("op:mig.read-mutate-persist(any)", 12),
+            ("op:mig.update_transaction", 4),
+            ("op:mig.cancel_migration", 8),
+            ("op:mig.store_proved_transaction", 4),
+            ("op:mig.advance_migration", 6),
+            ("op:truncate_to_height", 5),
+            ("mig-op-changes-migration-rows", 30),
+            ("mig-op-changes-migration-and-wallet-tables", 2),
+            ("wallet-op-changes-migration-rows+fault-between-writes", 3),
+            ("state:2-migrations", 25),
+        ] {
+            ctx.require_min_count("migration-fault-enumeration", label, tier.pick(min, min * 10));
+        }
+        ctx.require_min_count("migration-fault-enumeration", "faults-after-first-write", tier.pick(500, 5_000));
     }
     if want("reader-snapshot-migration") {
-        ctx.run_prop_with("reader-snapshot-migration", arb_c02_mig_reader_case, tier.pick(128, 2_000), 20, run_mig_reader_case);
+        ctx.run_prop_with("reader-snapshot-migration", arb_c02_mig_reader_case, tier.pick(96, 2_000), 20, run_mig_reader_case);
+        ctx.require_min_count("reader-snapshot-migration", "reader-interleavings-compared", tier.pick(400, 4_000));
+        ctx.require_min_count("reader-snapshot-migration", "write-changes:check_step_satisfiability", tier.pick(12, 120));
+        ctx.require_min_count("reader-snapshot-migration", "write-changes:migration-state-reads", tier.pick(4, 40));
     }
     // evidence: totals across op kinds
     ctx.finish();
